@@ -306,7 +306,7 @@ Proof.
     rewrite IH; auto using goodp_add_spec.
     cbn [map]. rewrite sumF_cons1.
     destruct Ga as (Wa & A0 & AL). destruct Gg as (Wg & G0 & GL).
-    rewrite pwc_overlap_add; auto; try congruence; try lra. cbn [nadd ROps]. lra.
+    rewrite (pwc_overlap_add a g x y Wa Wg) by (try congruence; lra). cbn [nadd ROps]. lra.
 Qed.
 
 (* the left fold of the model over Ok-valued pair profiles *)
@@ -319,3 +319,982 @@ Proof.
   cbn [fold_left map sum_spec]. unfold lstep at 2. cbn [rbind].
   rewrite (goodp_add ts te a (prof q) Ga Gq). apply IH; auto. apply goodp_add_spec; auto.
 Qed.
+
+(* ------------------------------------------------------------------ *)
+(* the bivariate ISI profile of two trains on [ts, te]                  *)
+
+Lemma sne_valid ts te (a : @train R) : mtrain ts te a ->
+  valid ts te (spikes_non_empty ROps a) /\ spikes_non_empty ROps a <> [].
+Proof.
+  destruct a as [[s st] en]. unfold mtrain, spikes_non_empty, tr_spikes, tr_start, tr_end.
+  cbn [fst snd]. intros (V & -> & ->). destruct s as [|x s]; [|split; [exact V|discriminate]].
+  destruct V as (Hlt & _). unfold sort_unique. cbn [fold_right insert_u nltb ROps].
+  destruct (Rltb_spec ts te) as [_|N]; [|lra].
+  split; [|discriminate]. split; [exact Hlt|]. split.
+  - apply ssorted_cons; [apply ssorted_cons; [apply ssorted_nil|constructor]|].
+    constructor; [exact Hlt|constructor].
+  - repeat constructor; lra.
+Qed.
+
+Lemma bip_py eps cy m (a b : @train R) :
+  isi_profile_bi ROps eps cy false m a b
+  = isi_profile_py ROps (spikes_non_empty ROps a) (spikes_non_empty ROps b) (tr_start a) (tr_end a) m.
+Proof.
+  unfold isi_profile_bi, prep2. destruct cy; [apply isi_profile_cy_eq|reflexivity].
+Qed.
+
+Lemma bip_good eps cy m ts te a b : mtrain ts te a -> mtrain ts te b ->
+  goodp ts te (isi_profile_bi ROps eps cy false m a b).
+Proof.
+  intros Ma Mb. rewrite bip_py.
+  destruct (sne_valid ts te a Ma) as [Va Na]. destruct (sne_valid ts te b Mb) as [Vb Nb].
+  destruct Ma as (_ & -> & ->).
+  destruct (isi_profile_wf _ _ ts te m Va Vb Na Nb) as (Hlen & Hhd & Hlast & Hs).
+  set (p := isi_profile_py ROps _ _ ts te m) in *.
+  assert (Hlt : ts < te) by (destruct Va; auto).
+  unfold goodp, wf_pwc, wf_x. rewrite nthF0_hd. unfold lastF. cbn [n0 ROps].
+  repeat split; auto.
+  destruct (fst p) as [|x [|y r]]; cbn [length hd last] in *; try lia; lra.
+Qed.
+
+Lemma bip_sym eps cy m ts te a b : mtrain ts te a -> mtrain ts te b ->
+  isi_profile_bi ROps eps cy false m a b = isi_profile_bi ROps eps cy false m b a.
+Proof.
+  intros (_ & Sa & Ea) (_ & Sb & Eb). rewrite !bip_py, Sa, Ea, Sb, Eb. apply isi_profile_sym.
+Qed.
+
+Section IsiMulti.
+  Variables (eps : R) (cy : bool) (m ts te : R).
+  Variable l : list (@train R).
+  Hypothesis H2 : (2 <= length l)%nat.
+  Hypothesis HF : Forall (mtrain ts te) l.
+
+  Definition pairsL : list (nat * nat) := pairs_of (seq 0 (length l)).
+  Definition profp (p : nat * nat) : list R * list R :=
+    isi_profile_bi ROps eps cy false m (nth_train ROps l (fst p)) (nth_train ROps l (snd p)).
+
+  Lemma nth_train_m p : In p pairsL ->
+    mtrain ts te (nth_train ROps l (fst p)) /\ mtrain ts te (nth_train ROps l (snd p)).
+  Proof.
+    intros Hp. apply in_pairs_seq in Hp as [H1 H3]. rewrite Forall_forall in HF.
+    split; apply HF, nth_In; assumption.
+  Qed.
+
+  Lemma profp_good p : In p pairsL -> goodp ts te (profp p).
+  Proof. intros Hp. destruct (nth_train_m p Hp). apply bip_good; auto. Qed.
+
+  Lemma pairsL_pos : (0 < length pairsL)%nat.
+  Proof. apply pairs_of_seq_pos; exact H2. Qed.
+
+  Lemma isi_multi_struct : exists p0 r, pairsL = p0 :: r /\
+    isi_profile_multi ROps eps cy false m l None
+    = Ok (pwc_mul ROps (sum_spec (profp p0) (map profp r)) (1 / INR (length pairsL))).
+  Proof.
+    pose proof pairsL_pos as Hpos.
+    destruct pairsL as [|p0 r] eqn:EP; [cbn in Hpos; lia|].
+    exists p0, r. split; [reflexivity|].
+    assert (Gall : Forall (fun q => goodp ts te (profp q)) (p0 :: r)).
+    { apply Forall_forall. intros q Hq. apply profp_good. rewrite EP. exact Hq. }
+    inversion Gall as [|? ? G0 Gr]; subst.
+    unfold isi_profile_multi, profile_multi_gen. cbn [indices_or_all].
+    rewrite check_indices_seq. cbn [negb]. fold pairsL. rewrite EP.
+    rewrite (dc_fold_model _ (pwc_add ROps)
+               (fun p => Ok (profp p)) (goodp ts te) (p0 :: r)).
+    - cbn [lsum]. rewrite (fold_lstep_spec ts te profp r (profp p0) G0 Gr).
+      cbn [rmap fst snd]. rewrite nofnat_INR. reflexivity.
+    - intros p Hp. rewrite Forall_forall in Gall. eauto.
+    - intros a b Ga Gb. exists (pwc_add_spec ROps a b). split; [eapply goodp_add; eauto|].
+      apply goodp_add_spec; auto.
+    - intros a b c ab bc Ga Gb Gc E1 E2.
+      rewrite (goodp_add ts te a b Ga Gb) in E1. rewrite (goodp_add ts te b c Gb Gc) in E2.
+      inversion E1; inversion E2; subst.
+      rewrite (goodp_add ts te _ c (goodp_add_spec ts te a b Ga Gb) Gc).
+      rewrite (goodp_add ts te a _ Ga (goodp_add_spec ts te b c Gb Gc)).
+      f_equal. destruct Ga as (Wa & A0 & AL), Gb as (Wb & B0 & BL), Gc as (Wc & C0 & CL).
+      apply pwc_add_assoc; auto; congruence.
+    - apply incl_refl.
+    - discriminate.
+  Qed.
+
+  (* the multivariate profile *)
+  Definition multiP : list R * list R :=
+    match pairsL with
+    | p0 :: r => pwc_mul ROps (sum_spec (profp p0) (map profp r)) (1 / INR (length pairsL))
+    | [] => ([], [])
+    end.
+
+  Lemma isi_multi_ok : isi_profile_multi ROps eps cy false m l None = Ok multiP.
+  Proof.
+    destruct isi_multi_struct as (p0 & r & EP & E). rewrite E. unfold multiP. rewrite EP. reflexivity.
+  Qed.
+
+  Lemma multiP_good : goodp ts te multiP.
+  Proof.
+    destruct isi_multi_struct as (p0 & r & EP & _). unfold multiP. rewrite EP.
+    apply goodp_mul. apply sum_spec_good.
+    - apply profp_good. rewrite EP. left; auto.
+    - apply Forall_map, Forall_forall. intros q Hq. apply profp_good. rewrite EP. right; auto.
+  Qed.
+
+  Lemma multiP_breaks : fst multiP = sort_unique ROps (concat (map (fun p => fst (profp p)) pairsL)).
+  Proof.
+    destruct isi_multi_struct as (p0 & r & EP & _). unfold multiP. rewrite EP.
+    unfold pwc_mul. cbn [fst]. rewrite (sum_spec_breaks ts te).
+    - cbn [map concat]. rewrite map_map. reflexivity.
+    - apply profp_good. rewrite EP. left; auto.
+    - apply Forall_map, Forall_forall. intros q Hq. apply profp_good. rewrite EP. right; auto.
+  Qed.
+
+  Lemma multiP_at t : ts < t < te -> ~ In t (fst multiP) ->
+    pwc_at ROps (fst multiP) (snd multiP) t
+    = Some (sumF ROps (map (fun p => pval (profp p) t) pairsL) * (1 / INR (length pairsL))).
+  Proof.
+    intros Ht Hn. destruct isi_multi_struct as (p0 & r & EP & _). unfold multiP in *.
+    rewrite EP in *. rewrite pwc_mul_pointwise.
+    assert (G0 : goodp ts te (profp p0)) by (apply profp_good; rewrite EP; left; auto).
+    assert (Gr : Forall (goodp ts te) (map profp r)).
+    { apply Forall_map, Forall_forall. intros q Hq. apply profp_good. rewrite EP. right; auto. }
+    rewrite (sum_spec_at ts te t Ht _ _ G0 Gr) by exact Hn.
+    cbn [option_map map]. rewrite sumF_cons1, map_map. reflexivity.
+  Qed.
+
+  Lemma multiP_overlap x y : ts <= x -> x <= y -> y <= te ->
+    pwc_overlap ROps (fst multiP) (snd multiP) x y
+    = sumF ROps (map (fun p => pwc_overlap ROps (fst (profp p)) (snd (profp p)) x y) pairsL)
+      * (1 / INR (length pairsL)).
+  Proof.
+    intros Hx Hxy Hy. destruct isi_multi_struct as (p0 & r & EP & _). unfold multiP.
+    rewrite EP. rewrite pwc_overlap_mul.
+    assert (G0 : goodp ts te (profp p0)) by (apply profp_good; rewrite EP; left; auto).
+    assert (Gr : Forall (goodp ts te) (map profp r)).
+    { apply Forall_map, Forall_forall. intros q Hq. apply profp_good. rewrite EP. right; auto. }
+    rewrite (sum_spec_overlap ts te x y Hx Hxy Hy _ _ G0 Gr).
+    cbn [map]. rewrite sumF_cons1, map_map. cbn [nadd ROps]. ring.
+  Qed.
+End IsiMulti.
+
+(* ------------------------------------------------------------------ *)
+(* B1, B2: the multivariate ISI profile                                 *)
+
+Theorem isi_multi_profile_pointwise : forall eps cy m l ts te,
+  (2 <= length l)%nat -> Forall (mtrain ts te) l ->
+  exists P, isi_profile_multi ROps eps cy false m l None = Ok P /\ wf_pwc P /\
+    forall t, ts < t < te -> ~ In t (fst P) ->
+      pwc_at ROps (fst P) (snd P) t =
+      Some (sumF ROps
+              (map (fun p =>
+                      match pwc_at ROps
+                              (fst (isi_profile_bi ROps eps cy false m
+                                      (nth_train ROps l (fst p)) (nth_train ROps l (snd p))))
+                              (snd (isi_profile_bi ROps eps cy false m
+                                      (nth_train ROps l (fst p)) (nth_train ROps l (snd p)))) t
+                      with Some v => v | None => 0 end)
+                   (pairs_of (seq 0 (length l))))
+            * (1 / INR (length (pairs_of (seq 0 (length l)))))).
+Proof.
+  intros eps cy m l ts te H2 HF. exists (multiP eps cy m l).
+  split; [apply (isi_multi_ok eps cy m ts te l H2 HF)|].
+  split; [apply (multiP_good eps cy m ts te l H2 HF)|].
+  intros t Ht Hn. apply (multiP_at eps cy m ts te l H2 HF t Ht Hn).
+Qed.
+
+Theorem isi_multi_breakpoints : forall eps cy m l ts te,
+  (2 <= length l)%nat -> Forall (mtrain ts te) l ->
+  exists P, isi_profile_multi ROps eps cy false m l None = Ok P /\
+    fst P = sort_unique ROps
+              (concat (map (fun p => fst (isi_profile_bi ROps eps cy false m
+                                            (nth_train ROps l (fst p)) (nth_train ROps l (snd p))))
+                           (pairs_of (seq 0 (length l))))) /\
+    ssorted (fst P) /\ nthF ROps (fst P) 0 = ts /\ lastF ROps (fst P) = te.
+Proof.
+  intros eps cy m l ts te H2 HF. exists (multiP eps cy m l).
+  split; [apply (isi_multi_ok eps cy m ts te l H2 HF)|].
+  split; [apply (multiP_breaks eps cy m ts te l H2 HF)|].
+  destruct (multiP_good eps cy m ts te l H2 HF) as ([[Hs _] _] & H0 & HL). auto.
+Qed.
+
+(* ------------------------------------------------------------------ *)
+(* C. the multivariate scalar is the average of the multivariate profile *)
+
+Definition iv_ok (ts te : R) (iv : option (R * R)) : Prop :=
+  match iv with None => True | Some (a, b) => ts <= a /\ a < b /\ b <= te end.
+Definition iv_lo (ts : R) (iv : option (R * R)) : R :=
+  match iv with None => ts | Some (a, _) => a end.
+Definition iv_hi (te : R) (iv : option (R * R)) : R :=
+  match iv with None => te | Some (_, b) => b end.
+
+Lemma iv_ok_bounds ts te iv : ts < te -> iv_ok ts te iv ->
+  ts <= iv_lo ts iv /\ iv_lo ts iv < iv_hi te iv /\ iv_hi te iv <= te.
+Proof. intros Hlt. destruct iv as [[a b]|]; cbn [iv_ok iv_lo iv_hi]; lra. Qed.
+
+Lemma avrg_good ts te iv f : goodp ts te f -> iv_ok ts te iv ->
+  pwc_avrg ROps f (iv_of iv)
+  = Ok (pwc_overlap ROps (fst f) (snd f) (iv_lo ts iv) (iv_hi te iv) / (iv_hi te iv - iv_lo ts iv)).
+Proof.
+  intros (W & F0 & FL) Hiv. destruct iv as [[a b]|]; cbn [iv_of iv_lo iv_hi iv_ok] in *.
+  - apply pwc_avrg_one; auto; rewrite ?F0, ?FL; lra.
+  - unfold pwc_avrg, avrg_gen. rewrite pwc_integral_none by auto.
+    cbn [rmap ndiv nsub ROps]. rewrite F0, FL. reflexivity.
+Qed.
+
+(* the bivariate scalar is the average of the bivariate profile (all code paths) *)
+Lemma isi_bi_is_avrg eps cy m iv ts te a b : mtrain ts te a -> mtrain ts te b ->
+  isi_distance_bi ROps eps cy false m iv a b
+  = pwc_avrg ROps (isi_profile_bi ROps eps cy false m a b) (iv_of iv).
+Proof.
+  intros Ma Mb. unfold isi_distance_bi, prep2. cbv iota beta.
+  destruct iv as [[x y]|]; destruct cy; try reflexivity.
+  unfold isi_profile_bi, prep2. cbv iota beta. cbn [iv_of].
+  destruct (sne_valid ts te a Ma) as [Va Na]. destruct (sne_valid ts te b Mb) as [Vb Nb].
+  destruct Ma as (_ & -> & ->). apply isi_distance_cy_avrg; auto.
+Qed.
+
+Lemma isi_bi_total eps cy m iv ts te a b : mtrain ts te a -> mtrain ts te b -> iv_ok ts te iv ->
+  exists v, isi_distance_bi ROps eps cy false m iv a b = Ok v.
+Proof.
+  intros Ma Mb Hiv. rewrite (isi_bi_is_avrg eps cy m iv ts te a b Ma Mb).
+  rewrite (avrg_good ts te iv _ (bip_good eps cy m ts te a b Ma Mb) Hiv). eauto.
+Qed.
+
+Lemma isi_bi_sym eps cy m iv ts te a b : mtrain ts te a -> mtrain ts te b ->
+  isi_distance_bi ROps eps cy false m iv a b = isi_distance_bi ROps eps cy false m iv b a.
+Proof.
+  intros Ma Mb. rewrite (isi_bi_is_avrg eps cy m iv ts te a b Ma Mb).
+  rewrite (isi_bi_is_avrg eps cy m iv ts te b a Mb Ma).
+  rewrite (bip_sym eps cy m ts te a b Ma Mb). reflexivity.
+Qed.
+
+(* _generic_distance_multi with totality on the trains of the list only *)
+Lemma dist_fold_val (bi : @train R -> @train R -> res R) (val : nat * nat -> R) l : forall ps a,
+  (forall p, In p ps -> bi (nth_train ROps l (fst p)) (nth_train ROps l (snd p)) = Ok (val p)) ->
+  fold_left (fun acc p =>
+               rbind acc (fun a =>
+               rmap (fun d => nadd ROps a d)
+                    (bi (nth_train ROps l (fst p)) (nth_train ROps l (snd p)))))
+            ps (Ok a)
+  = Ok (a + sumF ROps (map val ps)).
+Proof.
+  induction ps as [|p ps IH]; intros a H; cbn [fold_left map].
+  - unfold sumF; cbn [fold_right n0 ROps]. f_equal; lra.
+  - cbn [rbind]. rewrite (H p) by (left; reflexivity). cbn [rmap]. rewrite IH.
+    + rewrite sumF_cons1. cbn [nadd ROps]. f_equal; lra.
+    + intros q Hq. apply H. right; exact Hq.
+Qed.
+
+Lemma distance_multi_val eps (bi : @train R -> @train R -> res R) (val : nat * nat -> R) l :
+  (forall p, In p (pairs_of (seq 0 (length l))) ->
+     bi (nth_train ROps l (fst p)) (nth_train ROps l (snd p)) = Ok (val p)) ->
+  distance_multi_gen ROps eps bi false l None
+  = Ok (sumF ROps (map val (pairs_of (seq 0 (length l))))
+        / INR (length (pairs_of (seq 0 (length l))))).
+Proof.
+  intros H. unfold distance_multi_gen. cbn [indices_or_all].
+  rewrite check_indices_seq. cbn [negb].
+  rewrite (dist_fold_val bi val l _ _ H). cbn [rmap n0 ROps ndiv]. rewrite nofnat_INR.
+  f_equal. f_equal. lra.
+Qed.
+
+Lemma sumF_map_div {A} (g : A -> R) d (ps : list A) :
+  sumF ROps (map (fun p => g p / d) ps) = sumF ROps (map g ps) / d.
+Proof.
+  induction ps as [|p ps IH]; cbn [map].
+  - unfold sumF; cbn [fold_right n0 ROps]. unfold Rdiv. ring.
+  - rewrite !sumF_cons1, IH. cbn [nadd ROps]. unfold Rdiv. ring.
+Qed.
+
+Theorem isi_multi_distance_is_profile_average : forall eps cy m iv l ts te,
+  (2 <= length l)%nat -> Forall (mtrain ts te) l -> iv_ok ts te iv ->
+  (forall a b, mtrain ts te a -> mtrain ts te b ->
+     isi_distance_bi ROps eps cy false m iv a b
+     = pwc_avrg ROps (isi_profile_bi ROps eps cy false m a b) (iv_of iv)) ->
+  exists P, isi_profile_multi ROps eps cy false m l None = Ok P /\
+    isi_distance_multi ROps eps cy false m iv l None = pwc_avrg ROps P (iv_of iv).
+Proof.
+  intros eps cy m iv l ts te H2 HF Hiv Hbi. exists (multiP eps cy m l).
+  split; [apply (isi_multi_ok eps cy m ts te l H2 HF)|].
+  pose proof (multiP_good eps cy m ts te l H2 HF) as GP.
+  destruct (iv_ok_bounds ts te iv (goodp_lt _ _ _ GP) Hiv) as (B1 & B2 & B3).
+  rewrite (avrg_good ts te iv _ GP Hiv).
+  rewrite (multiP_overlap eps cy m ts te l H2 HF) by lra.
+  unfold isi_distance_multi.
+  rewrite (distance_multi_val eps _
+             (fun p => pwc_overlap ROps (fst (profp eps cy m l p)) (snd (profp eps cy m l p))
+                                   (iv_lo ts iv) (iv_hi te iv) / (iv_hi te iv - iv_lo ts iv))).
+  - fold (pairsL l). rewrite sumF_map_div. f_equal. unfold Rdiv. ring.
+  - intros p Hp. destruct (nth_train_m ts te l HF p Hp) as [Ma Mb].
+    rewrite (Hbi _ _ Ma Mb). apply avrg_good; auto. apply bip_good; auto.
+Qed.
+
+(* the hypothesis on the bivariate scalar holds on every code path *)
+Corollary isi_multi_distance_is_profile_average_uncond : forall eps cy m iv l ts te,
+  (2 <= length l)%nat -> Forall (mtrain ts te) l -> iv_ok ts te iv ->
+  exists P, isi_profile_multi ROps eps cy false m l None = Ok P /\
+    isi_distance_multi ROps eps cy false m iv l None = pwc_avrg ROps P (iv_of iv).
+Proof.
+  intros eps cy m iv l ts te H2 HF Hiv.
+  apply (isi_multi_distance_is_profile_average eps cy m iv l ts te H2 HF Hiv).
+  intros a b Ma Mb. apply (isi_bi_is_avrg eps cy m iv ts te a b Ma Mb).
+Qed.
+
+(* ------------------------------------------------------------------ *)
+(* D. means and permutation invariance of the scalar                    *)
+
+Lemma psum_perm_in {T} (v : T -> T -> R) l l' : Permutation l l' ->
+  (forall a b, In a l -> In b l -> v a b = v b a) -> psum v l = psum v l'.
+Proof.
+  induction 1 as [|x l l' Hp IH|x y l|l l' l'' Hp1 IH1 Hp2 IH2]; intros Hs; cbn [psum map].
+  - reflexivity.
+  - rewrite IH by (intros a b Ha Hb; apply Hs; right; auto).
+    f_equal. apply sumF_perm. apply Permutation_map. exact Hp.
+  - rewrite !sumF_cons1. rewrite (Hs y x) by (cbn [In]; auto). lra.
+  - rewrite IH1 by auto. apply IH2. intros a b Ha Hb.
+    apply Hs; eapply Permutation_in; try (apply Permutation_sym; exact Hp1); auto.
+Qed.
+
+Lemma pairs_psum (v : @train R -> @train R -> R) (l : list (@train R)) :
+  sumF ROps (map (fun p => v (nth_train ROps l (fst p)) (nth_train ROps l (snd p)))
+                 (pairs_of (seq 0 (length l))))
+  = psum v l.
+Proof. rewrite <- psum_gpairs, <- train_pairs, map_map. reflexivity. Qed.
+
+Lemma nth_train_in ts te (l : list (@train R)) p : Forall (mtrain ts te) l ->
+  In p (pairs_of (seq 0 (length l))) ->
+  mtrain ts te (nth_train ROps l (fst p)) /\ mtrain ts te (nth_train ROps l (snd p)).
+Proof.
+  intros HF Hp. apply in_pairs_seq in Hp as [H1 H3]. rewrite Forall_forall in HF.
+  split; apply HF, nth_In; assumption.
+Qed.
+
+(* the multivariate distance is the mean of the pair distances *)
+Theorem isi_distance_multi_mean : forall eps cy m iv l ts te,
+  Forall (mtrain ts te) l -> iv_ok ts te iv ->
+  isi_distance_multi ROps eps cy false m iv l None
+  = Ok (sumF ROps (map (fun p => valOf (isi_distance_bi ROps eps cy false m iv
+                                           (nth_train ROps l (fst p)) (nth_train ROps l (snd p))))
+                       (pairs_of (seq 0 (length l))))
+        / INR (length (pairs_of (seq 0 (length l))))).
+Proof.
+  intros eps cy m iv l ts te HF Hiv. unfold isi_distance_multi.
+  apply distance_multi_val. intros p Hp. destruct (nth_train_in ts te l p HF Hp) as [Ma Mb].
+  destruct (isi_bi_total eps cy m iv ts te _ _ Ma Mb Hiv) as (w & E). rewrite E. reflexivity.
+Qed.
+
+Theorem isi_distance_multi_perm : forall eps cy m iv l l' ts te,
+  Forall (mtrain ts te) l -> iv_ok ts te iv -> Permutation l l' ->
+  isi_distance_multi ROps eps cy false m iv l None = isi_distance_multi ROps eps cy false m iv l' None.
+Proof.
+  intros eps cy m iv l l' ts te HF Hiv Hp.
+  assert (HF' : Forall (mtrain ts te) l') by (eapply Permutation_Forall; eauto).
+  rewrite (isi_distance_multi_mean eps cy m iv l ts te HF Hiv).
+  rewrite (isi_distance_multi_mean eps cy m iv l' ts te HF' Hiv).
+  rewrite (pairs_psum (fun a b => valOf (isi_distance_bi ROps eps cy false m iv a b)) l).
+  rewrite (pairs_psum (fun a b => valOf (isi_distance_bi ROps eps cy false m iv a b)) l').
+  rewrite (Permutation_length Hp).
+  rewrite (psum_perm_in _ l l' Hp); [reflexivity|].
+  intros a b Ha Hb. rewrite Forall_forall in HF.
+  rewrite (isi_bi_sym eps cy m iv ts te a b (HF a Ha) (HF b Hb)). reflexivity.
+Qed.
+
+(* _generic_distance_matrix with totality on the trains of the list only *)
+Lemma matrix_gen_value_in eps bi diag sym (l : list (@train R)) :
+  (forall a b, In a l -> In b l -> exists v, bi a b = Ok v) ->
+  matrix_gen ROps eps bi diag sym false l None = Ok (mmatrix bi diag sym l).
+Proof.
+  intros Ht. unfold matrix_gen. cbn [indices_or_all].
+  rewrite check_indices_seq. cbn [negb]. rewrite seq_length. unfold mmatrix.
+  apply sequence_ok. intros i Hi. apply in_seq in Hi.
+  apply sequence_ok. intros j Hj. apply in_seq in Hj.
+  unfold mentry. rewrite !seq_nth by lia. cbn [plus].
+  assert (Ii : In (nth_train ROps l i) l) by (apply nth_In; lia).
+  assert (Ij : In (nth_train ROps l j) l) by (apply nth_In; lia).
+  destruct (i =? j)%nat; [reflexivity|].
+  destruct (i <? j)%nat.
+  - destruct (Ht _ _ Ii Ij) as (v & ->). reflexivity.
+  - destruct (Ht _ _ Ij Ii) as (v & ->). reflexivity.
+Qed.
+
+Theorem isi_matrix_entries : forall eps cy m iv l ts te,
+  Forall (mtrain ts te) l -> iv_ok ts te iv ->
+  exists M, isi_distance_matrix ROps eps cy false m iv l None = Ok M /\ length M = length l /\
+    (forall i, (i < length l)%nat -> length (nth i M []) = length l) /\
+    (forall i j, (i < length l)%nat -> (j < length l)%nat ->
+       nth j (nth i M []) 0 =
+         if (i =? j)%nat then 0
+         else if (i <? j)%nat
+              then valOf (isi_distance_bi ROps eps cy false m iv (nth_train ROps l i) (nth_train ROps l j))
+              else valOf (isi_distance_bi ROps eps cy false m iv (nth_train ROps l j) (nth_train ROps l i))) /\
+    (forall i j, (i < length l)%nat -> (j < length l)%nat ->
+       nth j (nth i M []) 0 = nth i (nth j M []) 0) /\
+    (forall i, (i < length l)%nat -> nth i (nth i M []) 0 = 0).
+Proof.
+  intros eps cy m iv l ts te HF Hiv.
+  set (bi := isi_distance_bi ROps eps cy false m iv).
+  exists (mmatrix bi 0 (fun x => x) l). split; [|split; [|split; [|split; [|split]]]].
+  - unfold isi_distance_matrix. cbn [n0 ROps]. apply matrix_gen_value_in.
+    intros a b Ha Hb. rewrite Forall_forall in HF.
+    apply (isi_bi_total eps cy m iv ts te a b (HF a Ha) (HF b Hb) Hiv).
+  - unfold mmatrix. rewrite map_length, seq_length. reflexivity.
+  - intros i Hi. unfold mmatrix. rewrite nth_map_seq by exact Hi.
+    rewrite map_length, seq_length. reflexivity.
+  - intros i j Hi Hj. rewrite mmatrix_nth by assumption. reflexivity.
+  - intros i j Hi Hj. rewrite !mmatrix_nth by assumption. apply mentry_sym.
+  - intros i Hi. rewrite mmatrix_nth by assumption. unfold mentry. rewrite Nat.eqb_refl. reflexivity.
+Qed.
+
+(* ------------------------------------------------------------------ *)
+(* E. the multivariate SPIKE-Sync profile                               *)
+
+Definition gooddf (ts te : R) (f : list (R * R * R)) : Prop :=
+  Lem_Df.wf_df f /\ fst (fst (hd (0,0,0) f)) = ts /\ fst (fst (last f (0,0,0))) = te.
+
+Lemma Sg_add_spec p t ev : p = Lem_Df.ey \/ p = Lem_Df.em ->
+  Lem_Df.Sg p t (Lem_Df.add_spec_of ev) = Lem_Df.Sg p t ev.
+Proof.
+  intros Hp. destruct (Lem_Df.add_spec_of_good ev) as (GS & GI & GF).
+  destruct (in_dec Req_EM_T t (map Lem_Df.kx (Lem_Df.add_spec_of ev))) as [Hin|Hn].
+  - apply in_map_iff in Hin as (e & <- & He).
+    rewrite (Lem_Df.Sg_self p _ e GS He). rewrite Forall_forall in GF.
+    destruct (GF e He) as [Hy Hm]. destruct Hp as [->| ->]; assumption.
+  - rewrite (Lem_Df.Sg_notin p t _ Hn). symmetry. apply Lem_Df.Sg_notin.
+    intros Hc. apply Hn. apply GI. exact Hc.
+Qed.
+
+Lemma df_add_sum ts te f g : gooddf ts te f -> gooddf ts te g ->
+  exists r, df_add ROps f g = Ok r /\ gooddf ts te r /\
+    forall p t, p = Lem_Df.ey \/ p = Lem_Df.em ->
+      Lem_Df.Sg p t (interior_entries r)
+      = Lem_Df.Sg p t (interior_entries f) + Lem_Df.Sg p t (interior_entries g).
+Proof.
+  intros (Wf & F0 & FL) (Wg & G0 & GL).
+  assert (E0 : fst (fst (hd (0,0,0) f)) = fst (fst (hd (0,0,0) g))) by congruence.
+  assert (EL : fst (fst (last f (0,0,0))) = fst (fst (last g (0,0,0)))) by congruence.
+  destruct (Lem_Df.df_add_events f g Wf Wg E0 EL) as (r & Er & HI & H0 & HL).
+  exists r. split; [exact Er|]. split.
+  - split; [exact (Lem_Df.df_add_wf f g r Wf Wg E0 EL Er)|]. split; congruence.
+  - intros p t Hp. rewrite HI, Lem_Df.df_add_spec_eq, Sg_add_spec by exact Hp.
+    apply Lem_Df.Sg_app.
+Qed.
+
+Section DfDC.
+  Variables ts te : R.
+  Variable prof : nat * nat -> list (R * R * R).
+
+  Lemma dc_df_sum : forall fuel ps,
+    (forall p, In p ps -> gooddf ts te (prof p)) -> ps <> [] -> (length ps < fuel)%nat ->
+    exists r, dc (df_add ROps) (fun p => Ok (prof p)) fuel ps = Ok r /\ gooddf ts te r /\
+      forall pr t, pr = Lem_Df.ey \/ pr = Lem_Df.em ->
+        Lem_Df.Sg pr t (interior_entries r)
+        = sumF ROps (map (fun p => Lem_Df.Sg pr t (interior_entries (prof p))) ps).
+  Proof.
+    induction fuel as [|k IH]; intros ps Hg Hne Hlen; [lia|].
+    destruct ps as [|p [|q r]]; [congruence| |].
+    - exists (prof p). split; [reflexivity|]. split; [apply Hg; left; reflexivity|].
+      intros pr t _. cbn [map]. rewrite sumF_cons1. unfold sumF; cbn [fold_right n0 ROps]. lra.
+    - set (ps := p :: q :: r) in *.
+      assert (Hdc : dc (df_add ROps) (fun p => Ok (prof p)) (S k) ps =
+                    rbind (dc (df_add ROps) (fun p => Ok (prof p)) k (firstn (Nat.div2 (length ps)) ps))
+                      (fun d1 =>
+                    rbind (dc (df_add ROps) (fun p => Ok (prof p)) k (skipn (Nat.div2 (length ps)) ps))
+                      (fun d2 => df_add ROps d1 d2)))
+        by reflexivity.
+      rewrite Hdc. clear Hdc.
+      assert (Hl2 : (2 <= length ps)%nat) by (unfold ps; cbn [length]; lia).
+      destruct (div2_bounds (length ps) Hl2) as [Hh1 Hh2].
+      set (h := Nat.div2 (length ps)) in *.
+      assert (Lf : length (firstn h ps) = h) by (apply firstn_length_le; lia).
+      assert (Ls : length (skipn h ps) = (length ps - h)%nat) by apply skipn_length.
+      assert (Nf : firstn h ps <> []) by (intros E; rewrite E in Lf; change (0 = h)%nat in Lf; lia).
+      assert (Ns : skipn h ps <> [])
+        by (intros E; rewrite E in Ls; change (0 = length ps - h)%nat in Ls; lia).
+      assert (If : forall x, In x (firstn h ps) -> gooddf ts te (prof x))
+        by (intros x Hx; apply Hg; rewrite <- (firstn_skipn h ps); apply in_or_app; auto).
+      assert (Is : forall x, In x (skipn h ps) -> gooddf ts te (prof x))
+        by (intros x Hx; apply Hg; rewrite <- (firstn_skipn h ps); apply in_or_app; auto).
+      destruct (IH _ If Nf) as (r1 & E1 & G1 & S1); [lia|].
+      destruct (IH _ Is Ns) as (r2 & E2 & G2 & S2); [lia|].
+      rewrite E1, E2. cbn [rbind].
+      destruct (df_add_sum ts te r1 r2 G1 G2) as (r3 & E3 & G3 & S3).
+      exists r3. split; [exact E3|]. split; [exact G3|].
+      intros pr t Hp. rewrite (S3 pr t Hp), (S1 pr t Hp), (S2 pr t Hp).
+      rewrite <- sumF_app, <- map_app, firstn_skipn. reflexivity.
+  Qed.
+End DfDC.
+
+(* the scan only depends on the window function pointwise *)
+Lemma coinc_events_ext (tau tau' : option (@ctx R) -> option (@ctx R) -> R) :
+  (forall c1 c2, tau c1 c2 = tau' c1 c2) ->
+  forall k p1 f1 p2 f2,
+    coinc_events ROps tau k p1 f1 p2 f2 = coinc_events ROps tau' k p1 f1 p2 f2.
+Proof.
+  intros H. induction k as [|k IH]; intros p1 f1 p2 f2; [reflexivity|].
+  destruct f1 as [|a f1'], f2 as [|b f2']; cbn [coinc_events]; rewrite ?H, ?IH; reflexivity.
+Qed.
+
+Lemma sync_bi_spec eps cy mt m ts te (a b : @train R) : mtrain ts te a -> mtrain ts te b ->
+  spike_sync_profile_bi ROps eps cy false mt m a b
+  = sync_spec ROps (tr_spikes a) (tr_spikes b) ts te mt m.
+Proof.
+  intros (Va & Sa & Ea) (Vb & _ & _).
+  unfold spike_sync_profile_bi, prep2. cbv iota beta. rewrite Sa, Ea.
+  rewrite <- (Lem_Sync.sync_profile_spec _ _ ts te mt m Va Vb).
+  unfold coincidence_profile_gen. do 2 f_equal.
+  destruct cy; [|reflexivity]. unfold coinc_scan. apply coinc_events_ext.
+  intros c1 c2. unfold tau_fn, gt_of. apply Lem_Tau.get_tau_cy_eq.
+Qed.
+
+Lemma event_entries_keys v1 v2 vb (s1 s2 : list R) :
+  map Lem_Df.kx (event_entries ROps v1 v2 vb s1 s2) = sort_unique ROps (s1 ++ s2).
+Proof.
+  unfold event_entries. rewrite map_map. rewrite <- (map_id (sort_unique ROps (s1 ++ s2))) at 2.
+  apply map_ext. intros t.
+  destruct (find _ (contexts s1)), (find _ (contexts s2)); reflexivity.
+Qed.
+
+Lemma framed_shape ts te (E : list (R * R * R)) :
+  exists f0 fl, framed ROps ts te E = f0 :: E ++ [fl] /\ Lem_Df.kx f0 = ts /\ Lem_Df.kx fl = te.
+Proof.
+  destruct E as [|e0 E]; cbn [framed].
+  - exists (ts, 1, 1), (te, 1, 1). repeat split.
+  - eexists _, _. split; [reflexivity|]. split; reflexivity.
+Qed.
+
+Lemma sync_bi_good eps cy mt m ts te (a b : @train R) : mtrain ts te a -> mtrain ts te b ->
+  gooddf ts te (spike_sync_profile_bi ROps eps cy false mt m a b).
+Proof.
+  intros Ma Mb. rewrite (sync_bi_spec eps cy mt m ts te a b Ma Mb).
+  destruct Ma as ((Hlt & Ssa & Ba) & _ & _). destruct Mb as ((_ & Ssb & Bb) & _ & _).
+  unfold sync_spec. cbv zeta.
+  match goal with |- gooddf _ _ (framed _ _ _ ?E) => set (EE := E) end.
+  destruct (framed_shape ts te EE) as (f0 & fl & -> & K0 & KL).
+  unfold gooddf. rewrite Lem_Df.last_shape. cbn [hd].
+  split; [|split; [exact K0|exact KL]].
+  apply Lem_Df.wf_df_intro.
+  - unfold EE. rewrite event_entries_keys. apply Lem_Pwc.sort_unique_sorted.
+  - rewrite K0, KL. lra.
+  - rewrite K0, KL. apply Forall_forall. intros e He.
+    assert (Hk : In (Lem_Df.kx e) (map Lem_Df.kx EE)) by (apply in_map; exact He).
+    unfold EE in Hk. rewrite event_entries_keys in Hk.
+    apply (proj1 (Lem_Pwc.sort_unique_In _ _)) in Hk. rewrite Forall_forall in Ba, Bb.
+    apply in_app_or in Hk as [Hk|Hk]; auto.
+Qed.
+
+Theorem sync_multi_events : forall eps cy mt m l ts te,
+  (2 <= length l)%nat -> Forall (mtrain ts te) l ->
+  exists P, spike_sync_profile_multi ROps eps cy false mt m l None = Ok P /\ Lem_Df.wf_df P /\
+    fst (fst (hd (0,0,0) P)) = ts /\ fst (fst (last P (0,0,0))) = te /\
+    forall t, sum_at ROps t (interior_entries P) =
+      (sumF ROps (map (fun p => fst (sum_at ROps t (interior_entries
+                         (spike_sync_profile_bi ROps eps cy false mt m
+                            (nth_train ROps l (fst p)) (nth_train ROps l (snd p))))))
+                      (pairs_of (seq 0 (length l)))),
+       sumF ROps (map (fun p => snd (sum_at ROps t (interior_entries
+                         (spike_sync_profile_bi ROps eps cy false mt m
+                            (nth_train ROps l (fst p)) (nth_train ROps l (snd p))))))
+                      (pairs_of (seq 0 (length l))))).
+Proof.
+  intros eps cy mt m l ts te H2 HF.
+  set (prof := fun p : nat * nat =>
+                 spike_sync_profile_bi ROps eps cy false mt m
+                   (nth_train ROps l (fst p)) (nth_train ROps l (snd p))).
+  set (ps := pairs_of (seq 0 (length l))).
+  assert (Hne : ps <> []).
+  { intros E. pose proof (pairs_of_seq_pos (length l) H2) as Hpos. fold ps in Hpos.
+    rewrite E in Hpos. cbn in Hpos. lia. }
+  destruct (dc_df_sum ts te prof (S (length ps)) ps) as (P & EP & (WP & P0 & PL) & SP); auto.
+  { intros p Hp. destruct (nth_train_in ts te l p HF Hp) as [Ma Mb]. apply sync_bi_good; auto. }
+  exists P. split; [|split; [exact WP|split; [exact P0|split; [exact PL|]]]].
+  - unfold spike_sync_profile_multi, profile_multi_gen. cbn [indices_or_all].
+    rewrite check_indices_seq. cbn [negb].
+    change (rmap fst (rmap (fun p => (p, length ps))
+                           (dc (df_add ROps) (fun p => Ok (prof p)) (S (length ps)) ps)) = Ok P).
+    match goal with |- rmap fst (rmap _ ?d) = _ =>
+      assert (EP' : d = Ok P) by exact EP; rewrite EP' end.
+    reflexivity.
+  - intros t. rewrite Lem_Df.sum_at_Sg. f_equal.
+    + rewrite (SP Lem_Df.ey t (or_introl eq_refl)). f_equal. apply map_ext. intros p.
+      rewrite Lem_Df.sum_at_Sg. reflexivity.
+    + rewrite (SP Lem_Df.em t (or_intror eq_refl)). f_equal. apply map_ext. intros p.
+      rewrite Lem_Df.sum_at_Sg. reflexivity.
+Qed.
+
+(* ------------------------------------------------------------------ *)
+(* B3. the multivariate ISI profile does not depend on the order of the
+   trains (equality of the representation)                              *)
+
+Lemma in_gpairs_cons {A} (x : A) r a b :
+  In (a, b) (gpairs (x :: r)) <-> (a = x /\ In b r) \/ In (a, b) (gpairs r).
+Proof.
+  cbn [gpairs]. rewrite in_app_iff, in_map_iff. split.
+  - intros [(y & E & Hy)|H]; auto. inversion E; subst. auto.
+  - intros [[-> Hb]|H]; auto. left. exists b. auto.
+Qed.
+
+Lemma gpairs_perm_in {A} (l l' : list A) : Permutation l l' -> forall a b,
+  In (a, b) (gpairs l) \/ In (b, a) (gpairs l) -> In (a, b) (gpairs l') \/ In (b, a) (gpairs l').
+Proof.
+  induction 1 as [|x l l' Hp IH|x y l|l l' l'' Hp1 IH1 Hp2 IH2]; intros a b.
+  - auto.
+  - rewrite !in_gpairs_cons. intros [[[-> Hb]|H]|[[-> Ha]|H]].
+    + left; left. split; auto. eapply Permutation_in; eauto.
+    + destruct (IH a b (or_introl H)); auto.
+    + right; left. split; auto. eapply Permutation_in; eauto.
+    + destruct (IH a b (or_intror H)); auto.
+  - rewrite !in_gpairs_cons. cbn [In]. intuition (subst; auto).
+  - intros H. apply IH2, IH1, H.
+Qed.
+
+Lemma concat_pairs_gpairs {B} (G : @train R -> @train R -> list B) (l : list (@train R)) :
+  concat (map (fun p => G (nth_train ROps l (fst p)) (nth_train ROps l (snd p)))
+              (pairs_of (seq 0 (length l))))
+  = concat (map (fun ab => G (fst ab) (snd ab)) (gpairs l)).
+Proof. rewrite <- train_pairs, map_map. reflexivity. Qed.
+
+Theorem isi_multi_profile_perm : forall eps cy m l l' ts te,
+  (2 <= length l)%nat -> Forall (mtrain ts te) l -> Permutation l l' ->
+  isi_profile_multi ROps eps cy false m l None = isi_profile_multi ROps eps cy false m l' None.
+Proof.
+  intros eps cy m l l' ts te H2 HF Hp.
+  assert (HF' : Forall (mtrain ts te) l') by (eapply Permutation_Forall; eauto).
+  assert (H2' : (2 <= length l')%nat) by (rewrite <- (Permutation_length Hp); exact H2).
+  rewrite (isi_multi_ok eps cy m ts te l H2 HF), (isi_multi_ok eps cy m ts te l' H2' HF').
+  f_equal.
+  pose proof (multiP_good eps cy m ts te l H2 HF) as G.
+  pose proof (multiP_good eps cy m ts te l' H2' HF') as G'.
+  set (P := multiP eps cy m l) in *. set (P' := multiP eps cy m l') in *.
+  (* breakpoints *)
+  assert (EB : fst P = fst P').
+  { unfold P, P'. rewrite (multiP_breaks eps cy m ts te l H2 HF).
+    rewrite (multiP_breaks eps cy m ts te l' H2' HF').
+    apply sort_unique_char; [apply Lem_Pwc.sort_unique_sorted|].
+    intros x. rewrite Lem_Pwc.sort_unique_In. unfold pairsL, profp.
+    rewrite (concat_pairs_gpairs (fun a b => fst (isi_profile_bi ROps eps cy false m a b)) l).
+    rewrite (concat_pairs_gpairs (fun a b => fst (isi_profile_bi ROps eps cy false m a b)) l').
+    assert (Hdir : forall k k', Permutation k k' -> Forall (mtrain ts te) k ->
+              In x (concat (map (fun ab => fst (isi_profile_bi ROps eps cy false m (fst ab) (snd ab)))
+                                (gpairs k))) ->
+              In x (concat (map (fun ab => fst (isi_profile_bi ROps eps cy false m (fst ab) (snd ab)))
+                                (gpairs k')))).
+    { intros k k' Hk Fk Hx. apply in_concat in Hx as (xs & Hxs & Hx).
+      apply in_map_iff in Hxs as ([a b] & <- & Hab). cbn [fst snd] in Hx.
+      destruct (in_gpairs _ _ _ Hab) as [Ia Ib]. rewrite Forall_forall in Fk.
+      apply in_concat.
+      destruct (gpairs_perm_in k k' Hk a b (or_introl Hab)) as [H|H].
+      - exists (fst (isi_profile_bi ROps eps cy false m a b)). split; [|exact Hx].
+        apply in_map_iff. exists (a, b). auto.
+      - exists (fst (isi_profile_bi ROps eps cy false m b a)). split.
+        + apply in_map_iff. exists (b, a). auto.
+        + rewrite <- (bip_sym eps cy m ts te a b (Fk a Ia) (Fk b Ib)). exact Hx. }
+    split; [apply (Hdir l' l (Permutation_sym Hp) HF') | apply (Hdir l l' Hp HF)]. }
+  destruct G as (WP & P0 & PL). destruct G' as (WP' & P0' & PL').
+  destruct P as [xs ys] eqn:EqP. destruct P' as [xs' ys'] eqn:EqP'. cbn [fst snd] in *.
+  subst xs'. f_equal.
+  destruct WP as [[Hs Hl] Hlen]. destruct WP' as [_ Hlen']. cbn [fst snd] in *.
+  apply (pwc_canonical xs ys ys' Hs Hlen Hlen').
+  intros q Hq. destruct (pieces_In xs Hs q Hq) as (I1 & I2 & I3 & I4).
+  pose proof (ssorted_bounds xs Hs) as HB. rewrite Forall_forall in HB.
+  destruct q as [a b]. cbn [fst snd] in *. pose proof (mid_between a b I3) as Hmid.
+  set (t := mid ROps (a, b)) in *.
+  assert (Ht : ts < t < te).
+  { pose proof (HB a I1). pose proof (HB b I2). lra. }
+  assert (Hn : ~ In t xs) by (intros Hc; destruct (I4 t Hc); lra).
+  pose proof (multiP_at eps cy m ts te l H2 HF t Ht) as A1.
+  pose proof (multiP_at eps cy m ts te l' H2' HF' t Ht) as A2.
+  fold P in A1. fold P' in A2. rewrite EqP in A1. rewrite EqP' in A2. cbn [fst snd] in A1, A2.
+  rewrite (A1 Hn), (A2 Hn). f_equal. unfold pairsL, profp.
+  rewrite (pairs_psum (fun x y => pval (isi_profile_bi ROps eps cy false m x y) t) l).
+  rewrite (pairs_psum (fun x y => pval (isi_profile_bi ROps eps cy false m x y) t) l').
+  rewrite (Permutation_length Hp).
+  rewrite (psum_perm_in _ l l' Hp); [reflexivity|].
+  intros x y Hx Hy. rewrite Forall_forall in HF.
+  rewrite (bip_sym eps cy m ts te x y (HF x Hx) (HF y Hy)). reflexivity.
+Qed.
+
+(* ------------------------------------------------------------------ *)
+(* A (piecewise linear). linearity of the exact integral over [a,b]     *)
+
+Lemma pc_add x0 x1 y y' z z' a b :
+  Lem_Pwl.pc x0 x1 (y + y') (z + z') a b = Lem_Pwl.pc x0 x1 y z a b + Lem_Pwl.pc x0 x1 y' z' a b.
+Proof.
+  unfold Lem_Pwl.pc, Lem_Pwl.trap. rewrite !Lem_Pwl.lin_R.
+  destruct (Rltb (Rmax a x0) (Rmin b x1)); unfold Rdiv; ring.
+Qed.
+
+Lemma pc_mul x0 x1 y z c a b :
+  Lem_Pwl.pc x0 x1 (y * c) (z * c) a b = c * Lem_Pwl.pc x0 x1 y z a b.
+Proof.
+  unfold Lem_Pwl.pc, Lem_Pwl.trap. rewrite !Lem_Pwl.lin_R.
+  destruct (Rltb (Rmax a x0) (Rmin b x1)); unfold Rdiv; ring.
+Qed.
+
+Lemma pwl_overlap_add_map (F1 F2 G1 G2 : R * R -> R) bs a b : forall P,
+  pwl_overlap ROps bs (map (fun q => F1 q + F2 q) P) (map (fun q => G1 q + G2 q) P) a b =
+  pwl_overlap ROps bs (map F1 P) (map G1 P) a b + pwl_overlap ROps bs (map F2 P) (map G2 P) a b.
+Proof.
+  induction bs as [|x0 bs IH]; intros P; [cbn; lra|].
+  destruct bs as [|x1 r]; [cbn; lra|]. destruct P as [|q P]; [cbn; lra|].
+  cbn [map]. rewrite !Lem_Pwl.overlap_cons, IH, pc_add. ring.
+Qed.
+
+Lemma pwl_overlap_map_mul c xs : forall y1 y2 a b,
+  pwl_overlap ROps xs (map (fun y => y * c) y1) (map (fun y => y * c) y2) a b
+  = c * pwl_overlap ROps xs y1 y2 a b.
+Proof.
+  induction xs as [|x0 xs IH]; intros y1 y2 a b; [cbn; lra|].
+  destruct xs as [|x1 r]; [cbn; lra|].
+  destruct y1 as [|ya y1]; [cbn [map]; rewrite !Lem_Pwl.overlap_nil1; lra|].
+  destruct y2 as [|yb y2]; [cbn [map]; rewrite !Lem_Pwl.overlap_nil2; lra|].
+  cbn [map]. rewrite !Lem_Pwl.overlap_cons, IH, pc_mul. ring.
+Qed.
+
+Theorem pwl_overlap_mul : forall f c a b,
+  let h := pwl_mul ROps f c in
+  pwl_overlap ROps (fst (fst h)) (snd (fst h)) (snd h) a b
+  = c * pwl_overlap ROps (fst (fst f)) (snd (fst f)) (snd f) a b.
+Proof.
+  intros [[xs y1] y2] c a b. cbn [pwl_mul fst snd nmul ROps]. apply pwl_overlap_map_mul.
+Qed.
+
+(* the same line through two of its points *)
+Lemma lin_sub_left p q r ya yb t : p < q -> p < r ->
+  lin ROps p q ya (lin ROps p r ya yb q) t = lin ROps p r ya yb t.
+Proof. intros. rewrite !Lem_Pwl.lin_R. field. lra. Qed.
+
+Lemma lin_sub_right p q r ya yb t : p < r -> q < r ->
+  lin ROps q r (lin ROps p r ya yb q) yb t = lin ROps p r ya yb t.
+Proof. intros. rewrite !Lem_Pwl.lin_R. field. lra. Qed.
+
+Lemma clamp_lo x0 x1 t : x0 <= x1 -> t <= x0 -> Lem_Pwl.clamp x0 x1 t = x0.
+Proof. intros. unfold Lem_Pwl.clamp. rewrite Rmin_left by lra. rewrite Rmax_left by lra. reflexivity. Qed.
+Lemma clamp_mid x0 x1 t : x0 <= t -> t <= x1 -> Lem_Pwl.clamp x0 x1 t = t.
+Proof. intros. unfold Lem_Pwl.clamp. rewrite Rmin_left by lra. rewrite Rmax_right by lra. reflexivity. Qed.
+Lemma clamp_hi x0 x1 t : x0 <= x1 -> x1 <= t -> Lem_Pwl.clamp x0 x1 t = x1.
+Proof. intros. unfold Lem_Pwl.clamp. rewrite Rmin_right by lra. rewrite Rmax_right by lra. reflexivity. Qed.
+
+Lemma pc_split p q r ya yb a b : p < q -> q < r -> a <= b ->
+  Lem_Pwl.pc p q ya (lin ROps p r ya yb q) a b + Lem_Pwl.pc q r (lin ROps p r ya yb q) yb a b
+  = Lem_Pwl.pc p r ya yb a b.
+Proof.
+  intros Hpq Hqr Hab. rewrite !Lem_Pwl.pc_clamp by lra.
+  set (T := fun t => Lem_Pwl.trap p r ya yb p t).
+  assert (Tuv : forall u v, Lem_Pwl.trap p r ya yb u v = T v - T u).
+  { intros u v. unfold T. rewrite <- (Lem_Pwl.trap_add p r ya yb p u v). ring. }
+  assert (L1 : forall u v, Lem_Pwl.trap p q ya (lin ROps p r ya yb q) u v = T v - T u).
+  { intros u v. rewrite <- Tuv. unfold Lem_Pwl.trap. rewrite !lin_sub_left by lra. reflexivity. }
+  assert (L2 : forall u v, Lem_Pwl.trap q r (lin ROps p r ya yb q) yb u v = T v - T u).
+  { intros u v. rewrite <- Tuv. unfold Lem_Pwl.trap. rewrite !lin_sub_right by lra. reflexivity. }
+  rewrite L1, L2, Tuv.
+  assert (K : forall t, T (Lem_Pwl.clamp p q t) + T (Lem_Pwl.clamp q r t)
+                        = T (Lem_Pwl.clamp p r t) + T q).
+  { intros t. destruct (Rle_dec t p) as [H1|H1].
+    - rewrite (clamp_lo p q), (clamp_lo q r), (clamp_lo p r) by lra. reflexivity.
+    - destruct (Rle_dec t q) as [H2|H2].
+      + rewrite (clamp_mid p q), (clamp_lo q r), (clamp_mid p r) by lra. reflexivity.
+      + destruct (Rle_dec t r) as [H3|H3].
+        * rewrite (clamp_hi p q), (clamp_mid q r), (clamp_mid p r) by lra. lra.
+        * rewrite (clamp_hi p q), (clamp_hi q r), (clamp_hi p r) by lra. lra. }
+  pose proof (K a). pose proof (K b). lra.
+Qed.
+
+(* sampling a piecewise linear function on a refinement of its breakpoints *)
+Lemma refine_overlap_pwl : forall bs' b0 xs' y1 y2 a b, a <= b ->
+  ssorted (b0 :: bs') -> ssorted (b0 :: xs') -> length xs' = length y1 -> length y1 = length y2 ->
+  incl xs' bs' -> (forall z, In z bs' -> z <= lastF ROps (b0 :: xs')) ->
+  pwl_overlap ROps (b0 :: bs')
+    (map (fun q => optval (pwl_right ROps (b0 :: xs') y1 y2 (fst q))) (pieces (b0 :: bs')))
+    (map (fun q => optval (pwl_left ROps (b0 :: xs') y1 y2 (snd q))) (pieces (b0 :: bs'))) a b
+  = pwl_overlap ROps (b0 :: xs') y1 y2 a b.
+Proof.
+  induction bs' as [|b1 bs IH]; intros b0 xs' y1 y2 a b Hab Hb Hx Hl1 Hl2 Hincl Hlast.
+  - destruct xs' as [|x1 xr]; [|exfalso; apply (Hincl x1); left; auto].
+    destruct y1; [|discriminate]. destruct y2; [reflexivity|discriminate].
+  - assert (H01 : b0 < b1) by (apply ssorted_cons_inv in Hb as [_ F]; inversion F; auto).
+    pose proof (ssorted_tl _ _ Hb) as Hb1.
+    pose proof (ssorted_hd_le _ _ Hb1) as Hge. rewrite Forall_forall in Hge.
+    destruct xs' as [|x1 xr].
+    { exfalso. specialize (Hlast b1 (or_introl eq_refl)). rewrite lastF_one in Hlast. lra. }
+    destruct y1 as [|ya y1]; [discriminate|]. destruct y2 as [|yb y2]; [discriminate|].
+    cbn [length] in Hl1, Hl2.
+    pose proof (ssorted_tl _ _ Hx) as Hx1.
+    assert (H0x : b0 < x1) by (apply ssorted_cons_inv in Hx as [_ F]; inversion F; auto).
+    pose proof (ssorted_hd_le _ _ Hx1) as Hgx. rewrite Forall_forall in Hgx.
+    assert (Hb1x : b1 <= x1) by (apply Hge, Hincl; left; auto).
+    rewrite Lem_Pwc.pieces_cons2. cbn [map fst snd]. rewrite !Lem_Pwl.overlap_cons.
+    rewrite Lem_Pwl.pwl_right_cons, Lem_Pwl.pwl_left_cons.
+    rewrite (Lem_Pwl.nleb_t b0 b0), (Lem_Pwl.Rltb_t b0 x1), (Lem_Pwl.Rltb_t b0 b1),
+            (Lem_Pwl.nleb_t b1 x1) by lra.
+    cbn [andb optval]. rewrite Lem_Pwl.lin_left.
+    rewrite lastF_cons2 in Hlast.
+    assert (Hq : forall q, In q (pieces (b1 :: bs)) -> b1 <= fst q /\ b1 < snd q).
+    { intros q Hq. destruct (pieces_In _ Hb1 q Hq) as (I1 & _ & I3 & _). apply Hge in I1. lra. }
+    destruct (Req_dec b1 x1) as [E|N].
+    + subst x1. rewrite Lem_Pwl.lin_right by lra.
+      rewrite (map_ext_in _ (fun q => optval (pwl_right ROps (b1 :: xr) y1 y2 (fst q)))).
+      2:{ intros q Hq'. destruct (Hq q Hq') as [Q1 Q2].
+          rewrite Lem_Pwl.pwl_right_cons, (Lem_Pwl.Rltb_f (fst q) b1) by lra.
+          rewrite andb_false_r. reflexivity. }
+      rewrite (map_ext_in (fun q => optval (pwl_left ROps _ _ _ (snd q)))
+                          (fun q => optval (pwl_left ROps (b1 :: xr) y1 y2 (snd q)))).
+      2:{ intros q Hq'. destruct (Hq q Hq') as [Q1 Q2].
+          rewrite Lem_Pwl.pwl_left_cons, (Lem_Pwl.nleb_f (snd q) b1) by lra.
+          rewrite andb_false_r. reflexivity. }
+      rewrite (IH b1 xr y1 y2 a b Hab Hb1 Hx1).
+      * reflexivity.
+      * lia.
+      * lia.
+      * intros z Hz. assert (Hz' : In z (b1 :: bs)) by (apply Hincl; right; auto).
+        destruct Hz' as [<-|]; auto. exfalso.
+        apply ssorted_cons_inv in Hx1 as [_ F]. rewrite Forall_forall in F. apply F in Hz. lra.
+      * intros z Hz. apply Hlast. right; auto.
+    + assert (Hlt : b1 < x1) by lra.
+      assert (Hx' : ssorted (b1 :: x1 :: xr)) by (apply Lem_Pwc.ssorted_cons_lt; auto).
+      set (L := lin ROps b0 x1 ya yb b1).
+      rewrite (map_ext_in _ (fun q => optval (pwl_right ROps (b1 :: x1 :: xr) (L :: y1) (yb :: y2) (fst q)))).
+      2:{ intros q Hq'. destruct (Hq q Hq') as [Q1 Q2].
+          rewrite !Lem_Pwl.pwl_right_cons.
+          rewrite (Lem_Pwl.nleb_t b0 (fst q)), (Lem_Pwl.nleb_t b1 (fst q)) by lra.
+          cbn [andb]. destruct (Rltb (fst q) x1); [|reflexivity].
+          unfold L. rewrite lin_sub_right by lra. reflexivity. }
+      rewrite (map_ext_in (fun q => optval (pwl_left ROps _ _ _ (snd q)))
+                 (fun q => optval (pwl_left ROps (b1 :: x1 :: xr) (L :: y1) (yb :: y2) (snd q)))).
+      2:{ intros q Hq'. destruct (Hq q Hq') as [Q1 Q2].
+          rewrite !Lem_Pwl.pwl_left_cons.
+          rewrite (Lem_Pwl.Rltb_t b0 (snd q)), (Lem_Pwl.Rltb_t b1 (snd q)) by lra.
+          cbn [andb]. destruct (nleb ROps (snd q) x1); [|reflexivity].
+          unfold L. rewrite lin_sub_right by lra. reflexivity. }
+      rewrite (IH b1 (x1 :: xr) (L :: y1) (yb :: y2) a b Hab Hb1 Hx').
+      * rewrite Lem_Pwl.overlap_cons. unfold L.
+        rewrite <- (pc_split b0 b1 x1 ya yb a b H01 Hlt Hab). ring.
+      * cbn [length]. lia.
+      * cbn [length]. lia.
+      * intros z Hz. assert (Hz' : In z (b1 :: bs)) by (apply Hincl; auto).
+        destruct Hz' as [<-|]; auto. exfalso. apply Hgx in Hz. lra.
+      * intros z Hz. rewrite lastF_cons2. apply Hlast. right; auto.
+Qed.
+
+Lemma refine_overlap_pwl_wf xs y1 y2 B a b : a <= b -> wf_pwl (xs, y1, y2) -> ssorted B ->
+  incl xs B -> (forall z, In z B -> nthF ROps xs 0 <= z <= lastF ROps xs) ->
+  pwl_overlap ROps B
+    (map (fun q => optval (pwl_right ROps xs y1 y2 (fst q))) (pieces B))
+    (map (fun q => optval (pwl_left ROps xs y1 y2 (snd q))) (pieces B)) a b
+  = pwl_overlap ROps xs y1 y2 a b.
+Proof.
+  intros Hab W HsB Hincl HR. apply Lem_Pwl.wf_pwl_inv in W as (Hs & Hl & L1 & L2).
+  destruct xs as [|x0 xs']; [cbn in Hl; lia|]. rewrite nthF_0 in HR.
+  destruct B as [|b0 B']; [exfalso; apply (Hincl x0); left; auto|].
+  assert (b0 = x0).
+  { pose proof (HR b0 (or_introl eq_refl)) as [Hb _].
+    destruct (Hincl x0 (or_introl eq_refl)) as [|Hin]; auto.
+    apply ssorted_cons_inv in HsB as [_ F]. rewrite Forall_forall in F. apply F in Hin. lra. }
+  subst b0. apply refine_overlap_pwl; auto.
+  - intros z Hz. assert (Hz' : In z (x0 :: B')) by (apply Hincl; right; auto).
+    destruct Hz' as [<-|]; auto. exfalso.
+    apply ssorted_cons_inv in Hs as [_ F]. rewrite Forall_forall in F. apply F in Hz. lra.
+  - intros z Hz. apply HR. right; auto.
+Qed.
+
+Lemma wf_pwl_range xs y1 y2 : wf_pwl (xs, y1, y2) ->
+  forall z, In z xs -> nthF ROps xs 0 <= z <= lastF ROps xs.
+Proof.
+  intros W z Hz. apply Lem_Pwl.wf_pwl_inv in W as (Hs & _).
+  pose proof (ssorted_bounds _ Hs) as Hb. rewrite Forall_forall in Hb. apply Hb; auto.
+Qed.
+
+Theorem pwl_overlap_add : forall f g a b, wf_pwl f -> wf_pwl g ->
+  nthF ROps (fst (fst f)) 0 = nthF ROps (fst (fst g)) 0 ->
+  lastF ROps (fst (fst f)) = lastF ROps (fst (fst g)) ->
+  nthF ROps (fst (fst f)) 0 <= a -> a <= b -> b <= lastF ROps (fst (fst f)) ->
+  let h := pwl_add_spec ROps f g in
+  pwl_overlap ROps (fst (fst h)) (snd (fst h)) (snd h) a b =
+  pwl_overlap ROps (fst (fst f)) (snd (fst f)) (snd f) a b
+  + pwl_overlap ROps (fst (fst g)) (snd (fst g)) (snd g) a b.
+Proof.
+  intros [[x1 y11] y12] [[x2 y21] y22] a b W1 W2. cbn [fst snd]. intros E0 EL _ Hab _.
+  cbv zeta. unfold pwl_add_spec. cbn [fst snd].
+  set (B := sort_unique ROps (x1 ++ x2)).
+  assert (HsB : ssorted B) by apply Lem_Pwc.sort_unique_sorted.
+  pose proof (wf_pwl_range _ _ _ W1) as R1. pose proof (wf_pwl_range _ _ _ W2) as R2.
+  assert (RB : forall z, In z B -> nthF ROps x1 0 <= z <= lastF ROps x1).
+  { intros z Hz. unfold B in Hz. apply (proj1 (Lem_Pwc.sort_unique_In _ _)) in Hz.
+    apply in_app_or in Hz as [Hz|Hz]; [apply R1; auto|]. rewrite E0, EL. apply R2; auto. }
+  rewrite (map_ext (fun p => optsum ROps (pwl_right ROps x1 y11 y12 (fst p)) (pwl_right ROps x2 y21 y22 (fst p)))
+             (fun p => optval (pwl_right ROps x1 y11 y12 (fst p)) + optval (pwl_right ROps x2 y21 y22 (fst p))))
+    by (intros p; apply optsum_val).
+  rewrite (map_ext (fun p => optsum ROps (pwl_left ROps x1 y11 y12 (snd p)) (pwl_left ROps x2 y21 y22 (snd p)))
+             (fun p => optval (pwl_left ROps x1 y11 y12 (snd p)) + optval (pwl_left ROps x2 y21 y22 (snd p))))
+    by (intros p; apply optsum_val).
+  rewrite (pwl_overlap_add_map
+             (fun p => optval (pwl_right ROps x1 y11 y12 (fst p)))
+             (fun p => optval (pwl_right ROps x2 y21 y22 (fst p)))
+             (fun p => optval (pwl_left ROps x1 y11 y12 (snd p)))
+             (fun p => optval (pwl_left ROps x2 y21 y22 (snd p)))).
+  f_equal.
+  - apply refine_overlap_pwl_wf; auto.
+    intros z Hz. apply Lem_Pwc.sort_unique_In, in_or_app. left; auto.
+  - apply refine_overlap_pwl_wf; auto.
+    + intros z Hz. apply Lem_Pwc.sort_unique_In, in_or_app. right; auto.
+    + intros z Hz. rewrite <- E0, <- EL. apply RB; auto.
+Qed.
+
+(* ------------------------------------------------------------------ *)
+(* E'. the events of the multivariate SPIKE-Sync profile do not depend on
+   the order of the trains                                              *)
+
+Lemma event_entries_sym v vb (s1 s2 : list R) :
+  event_entries ROps v v vb s1 s2 = event_entries ROps v v vb s2 s1.
+Proof.
+  unfold event_entries.
+  rewrite (sort_unique_char (s1 ++ s2) (sort_unique ROps (s2 ++ s1))).
+  - apply map_ext. intros t.
+    destruct (find _ (contexts s1)), (find _ (contexts s2)); reflexivity.
+  - apply Lem_Pwc.sort_unique_sorted.
+  - intros x. rewrite Lem_Pwc.sort_unique_In, !in_app_iff. tauto.
+Qed.
+
+Lemma sync_bi_sym eps cy mt m ts te (a b : @train R) : mtrain ts te a -> mtrain ts te b ->
+  spike_sync_profile_bi ROps eps cy false mt m a b = spike_sync_profile_bi ROps eps cy false mt m b a.
+Proof.
+  intros Ma Mb. rewrite (sync_bi_spec eps cy mt m ts te a b Ma Mb).
+  rewrite (sync_bi_spec eps cy mt m ts te b a Mb Ma).
+  unfold sync_spec. cbv zeta. rewrite event_entries_sym. reflexivity.
+Qed.
+
+Theorem sync_multi_events_perm : forall eps cy mt m l l' ts te,
+  (2 <= length l)%nat -> Forall (mtrain ts te) l -> Permutation l l' ->
+  exists P P', spike_sync_profile_multi ROps eps cy false mt m l None = Ok P /\
+    spike_sync_profile_multi ROps eps cy false mt m l' None = Ok P' /\
+    forall t, sum_at ROps t (interior_entries P) = sum_at ROps t (interior_entries P').
+Proof.
+  intros eps cy mt m l l' ts te H2 HF Hp.
+  assert (HF' : Forall (mtrain ts te) l') by (eapply Permutation_Forall; eauto).
+  assert (H2' : (2 <= length l')%nat) by (rewrite <- (Permutation_length Hp); exact H2).
+  destruct (sync_multi_events eps cy mt m l ts te H2 HF) as (P & EP & _ & _ & _ & SP).
+  destruct (sync_multi_events eps cy mt m l' ts te H2' HF') as (P' & EP' & _ & _ & _ & SP').
+  exists P, P'. split; [exact EP|]. split; [exact EP'|].
+  intros t. rewrite SP, SP'. rewrite Forall_forall in HF.
+  rewrite (pairs_psum (fun a b => fst (sum_at ROps t (interior_entries
+             (spike_sync_profile_bi ROps eps cy false mt m a b)))) l).
+  rewrite (pairs_psum (fun a b => fst (sum_at ROps t (interior_entries
+             (spike_sync_profile_bi ROps eps cy false mt m a b)))) l').
+  rewrite (pairs_psum (fun a b => snd (sum_at ROps t (interior_entries
+             (spike_sync_profile_bi ROps eps cy false mt m a b)))) l).
+  rewrite (pairs_psum (fun a b => snd (sum_at ROps t (interior_entries
+             (spike_sync_profile_bi ROps eps cy false mt m a b)))) l').
+  f_equal; apply psum_perm_in; auto; intros a b Ha Hb;
+    rewrite (sync_bi_sym eps cy mt m ts te a b (HF a Ha) (HF b Hb)); reflexivity.
+Qed.
+
+(* ------------------------------------------------------------------ *)
+Print Assumptions pwc_overlap_add.
+Print Assumptions pwc_overlap_mul.
+Print Assumptions pwl_overlap_add.
+Print Assumptions pwl_overlap_mul.
+Print Assumptions isi_multi_profile_pointwise.
+Print Assumptions isi_multi_breakpoints.
+Print Assumptions isi_multi_profile_perm.
+Print Assumptions isi_multi_distance_is_profile_average.
+Print Assumptions isi_multi_distance_is_profile_average_uncond.
+Print Assumptions isi_distance_multi_mean.
+Print Assumptions isi_distance_multi_perm.
+Print Assumptions isi_matrix_entries.
+Print Assumptions sync_multi_events.
+Print Assumptions sync_multi_events_perm.
